@@ -13,10 +13,15 @@ typedef unsigned long ulong_t;
 struct P { int x; double y; };
 union U { int i; float f; };
 enum E { EA, EB = 5 };
+typedef struct { int x; double y; } anon_t;
+typedef enum { AA, AB = 3 } aenum_t;
+typedef int (*fp2_t)(int, char);
+typedef struct P named_t;
 """
 BASES = [["int"], ["unsigned", "int"], ["char"], ["signed", "char"], ["unsigned", "char"], ["short"], ["long"], ["unsigned", "long", "long"], ["float"], ["double"],
-         ["myint"], ["ulong_t"], ["enum", "E"], ["struct", "P"], ["bool"]]
-NUMERIC = {"int", "unsigned int", "char", "signed char", "unsigned char", "short", "long", "unsigned long long", "float", "double", "myint", "ulong_t", "enum E", "bool"}
+         ["myint"], ["ulong_t"], ["enum", "E"], ["struct", "P"], ["bool"], ["anon_t"], ["aenum_t"], ["named_t"]]
+NUMERIC = {"int", "unsigned int", "char", "signed char", "unsigned char", "short", "long", "unsigned long long", "float", "double", "myint", "ulong_t", "enum E", "bool", "aenum_t"}
+STRUCTY = {"struct P", "anon_t", "named_t"}
 
 
 def B(words, const=False):
@@ -49,14 +54,16 @@ def expr_of(t, name):
         w = " ".join(t[1])
         if w in NUMERIC:
             return "(long)(%s)" % name
-        if w == "struct P":
+        if w in STRUCTY:
             return "((long)%s.x + (long)%s.y)" % (name, name)
+        if w == "fp2_t":
+            return "(long)%s(3, 'b')" % name
         return None
     if k == "ptr":
         p = t[2]
         if p[0] == "base" and " ".join(p[1]) in NUMERIC:
             return "(long)(*%s)" % name
-        if p[0] == "base" and " ".join(p[1]) == "struct P":
+        if p[0] == "base" and " ".join(p[1]) in STRUCTY:
             return "(long)(%s->x)" % name
         if p[0] == "arr":
             return "(long)((*%s)[1])" % name
@@ -78,15 +85,17 @@ def arg_of(t, idx):
         w = " ".join(t[1])
         if w in NUMERIC:
             return [], "(%s)%d" % (w, v % 100 if w != "bool" else 1)
-        if w == "struct P":
-            return ["struct P sp%d = { %d, %d.5 };" % (idx, v, v)], "sp%d" % idx
+        if w in STRUCTY:
+            return ["%s sp%d = { %d, %d.5 };" % (w, idx, v, v)], "sp%d" % idx
+        if w == "fp2_t":
+            return [], "cb2"
     if k == "ptr":
         p = t[2]
         if p[0] == "base" and " ".join(p[1]) in NUMERIC:
             w = " ".join(p[1])
             return ["%s pv%d = (%s)%d;" % (w, idx, w, (v + 1) % 100 if w != "bool" else 1)], "&pv%d" % idx
-        if p[0] == "base" and " ".join(p[1]) == "struct P":
-            return ["struct P pp%d = { %d, 1.0 };" % (idx, v)], "&pp%d" % idx
+        if p[0] == "base" and " ".join(p[1]) in STRUCTY:
+            return ["%s pp%d = { %d, 1.0 };" % (" ".join(p[1]), idx, v)], "&pp%d" % idx
         if p[0] == "arr":
             return ["int pa%d[%d] = { %s };" % (idx, p[2], ", ".join(str(v + j) for j in range(p[2])))], "&pa%d" % idx
         if p[0] == "fun":
@@ -106,9 +115,11 @@ def gen_param(r, hazard):
     x = r.random()
     if x < 0.45:
         w = r.choice(BASES)
-        return B(w, r.random() < 0.1 and w != ["struct", "P"])
+        if r.random() < 0.06:
+            w = ["fp2_t"]
+        return B(w, r.random() < 0.1 and " ".join(w) not in STRUCTY and w != ["fp2_t"])
     if x < 0.70:
-        w = r.choice([b for b in BASES if " ".join(b) in NUMERIC] + [["struct", "P"]])
+        w = r.choice([b for b in BASES if " ".join(b) in NUMERIC] + [["struct", "P"], ["anon_t"], ["named_t"]])
         return ("ptr", r.random() < 0.15, B(w, r.random() < 0.4))
     if x < 0.80:
         return ("arr", B(["int"]), r.choice([2, 3, 8]))
@@ -134,8 +145,10 @@ def gen_fn(r, i, hazard):
         ret = B(["void"])
     elif y < 0.75:
         ret = B(["double"])
-    elif y < 0.85:
+    elif y < 0.80:
         ret = B(["struct", "P"])
+    elif y < 0.85:
+        ret = B(r.choice([["anon_t"], ["aenum_t"], ["fp2_t"], ["named_t"], ["myint"]]))
     elif y < 0.93:
         ret = ("ptr", False, B(["int"], True))
     elif hazard:
@@ -153,8 +166,10 @@ def fn_text(f):
     r = f["ret"]
     if r[0] == "base" and r[1] == ["void"]:
         body = "side_effect += %s;" % total
-    elif r[0] == "base" and r[1] == ["struct", "P"]:
-        body = "struct P res = { (int)(%s), 0.5 }; return res;" % total
+    elif r[0] == "base" and " ".join(r[1]) in STRUCTY:
+        body = "%s res = { (int)(%s), 0.5 }; return res;" % (" ".join(r[1]), total)
+    elif r[0] == "base" and r[1] == ["fp2_t"]:
+        body = "side_effect += %s; return cb2;" % total
     elif r[0] == "ptr" and r[2][0] == "base":
         body = "static int cell; cell = (int)(%s); return &cell;" % total
     elif r[0] == "ptr":
@@ -178,12 +193,13 @@ def call_test(f, suffix):
     nm, w = f["name"], f["name"] + suffix
     if r[0] == "base" and r[1] == ["void"]:
         cmp_ = "side_effect = 0; %s(%s); long s1 = side_effect; side_effect = 0; %s(%s); long s2 = side_effect; ok = (s1 == s2);" % (nm, a, w, a)
-    elif r[0] == "base" and r[1] == ["struct", "P"]:
-        cmp_ = "struct P r1 = %s(%s); struct P r2 = %s(%s); ok = (r1.x == r2.x && r1.y == r2.y);" % (nm, a, w, a)
+    elif r[0] == "base" and " ".join(r[1]) in STRUCTY:
+        cmp_ = "%s r1 = %s(%s); %s r2 = %s(%s); ok = (r1.x == r2.x && r1.y == r2.y);" % (" ".join(r[1]), nm, a, " ".join(r[1]), w, a)
     elif r[0] == "ptr" and r[2][0] == "base":
         cmp_ = "int r1 = *%s(%s); int r2 = *%s(%s); ok = (r1 == r2);" % (nm, a, w, a)
-    elif r[0] == "ptr":
-        cmp_ = "ok = (%s(%s) == %s(%s));" % (nm, a, w, a)
+    elif r[0] == "ptr" or (r[0] == "base" and r[1] == ["fp2_t"]):
+        # the returned function is a static of the header: each translation unit has its own copy, compare what it computes
+        cmp_ = "ok = (%s(%s)(3, 'b') == %s(%s)(3, 'b'));" % (nm, a, w, a)
     else:
         cmp_ = "ok = (%s(%s) == %s(%s));" % (nm, a, w, a)
     return "{ int ok; %s %s if (!ok) { printf(\"MISMATCH %s\\n\"); bad++; } else printf(\"SAME %s\\n\"); }" % (" ".join(setup), cmp_, nm, nm)
